@@ -1,9 +1,10 @@
 (* C19 — Windowed and scan operations match their NumPy definitions.
    Statements only; models in theories/Scan.v, Window.v (scans, sliding + moving windows, overlap); proofs in ScanFacts.v, BlellochFacts.v,
-   WindowBase.v, SlidingFacts.v, OverlapFacts.v.
+   WindowBase.v, SlidingFacts.v, OverlapFacts.v; diff / gradient: models in theories/DiffGrad.v, proofs in DiffGradFacts.v.
    1-D (one axis): a block is a `list`, a chunked array a `list (list _)`; N-D arrays run the
    same per-axis wiring independently for every index of the other axes (correspondence only). *)
-From DA Require Import PyBase Scan ScanFacts BlellochFacts Window WindowBase SlidingFacts OverlapFacts.
+From DA Require Import PyBase Scan ScanFacts BlellochFacts Window WindowBase SlidingFacts OverlapFacts DiffGrad DiffGradFacts.
+From Coq Require Import QArith.
 Open Scope Z_scope.
 
 (* ---- cumulative scans -------------------------------------------------------------- *)
@@ -137,6 +138,137 @@ Theorem C19_map_overlap_stencil_none :
       overlap_rechunked_chunks (map zlen blocks) ld rd true = Some (map zlen res).
 Proof. intros A B r g F HF. exact (map_overlap_stencil_none r g F HF). Qed.
 
+(* ---- diff ------------------------------------------------------------------------------- *)
+
+(* one pass of diff()'s loop, r[1:] - r[:-1], is NumPy's first difference out[i] = a[i+1] - a[i] *)
+Theorem C19_diff_step :
+  forall l : list Z, diff_step l = map (fun i => nth (S i) l 0 - nth i l 0) (seq 0 (length l - 1)).
+Proof. exact diff_step_spec. Qed.
+
+(* diff(a, n, prepend, append) = numpy.diff for EVERY n (n < 0: both raise; n = 0: the array itself,
+   prepend / append ignored by both) and every prepend / append; the result has
+   max(0, len(prepend) + len(a) + len(append) - n) elements *)
+Theorem C19_diff :
+  forall n (p q : option (list Z)) (a : list Z),
+    da_diff n p q a = np_diff_full n p q a /\
+    (forall r, da_diff n p q a = Some r -> n <> 0 -> zlen r = Z.max 0 (zlen (diff_combined p q a) - n)).
+Proof. exact da_diff_correct. Qed.
+
+(* the n-th difference in closed form: out[i] = sum_{k=0..n} (-1)^(n-k) C(n,k) a[i+k] *)
+Theorem C19_diff_closed_form :
+  forall (n : nat) (l : list Z),
+    np_diff n l = map (fun i => zsum (map (fun k => sbinom n k * nth (i + k) l 0) (seq 0 (S n)))) (seq 0 (length l - n)).
+Proof. exact np_diff_closed_form. Qed.
+
+Theorem C19_sbinom_is_signed_binomial :
+  forall n k : nat, (k <= n)%nat -> sbinom n k = (-1) ^ Z.of_nat (n - k) * binom n k.
+Proof. exact sbinom_binom. Qed.
+
+(* ---- gradient ---------------------------------------------------------------------------- *)
+
+(* (a) the guard exactly as gradient() checks it -- every chunk of the axis >= edge_order + 1 --,
+   edge_order 1 and 2, EVERY layout and input, any per-position kernel (mid / lft / rgt: central
+   difference and the one-sided formulas over the first / last edge_order + 1 samples; unit, scalar
+   or coordinate spacing are instances): map_overlap(depth 1, boundary "none") keeps the chunks
+   and the concatenated trimmed per-block results are numpy.gradient of the whole axis *)
+Theorem C19_gradient_plan :
+  forall (T R : Type) (d : T) (mid : T -> T -> T -> R) (lft rgt : list T -> R) (eo : Z) (blocks : list (list T)),
+    1 <= eo <= 2 -> blocks <> [] -> gradient_guard eo (map zlen blocks) = true ->
+    exists G, np_gradient_gen d mid lft rgt eo (concat blocks) = Some G /\
+              gradient_plan d mid lft rgt eo blocks = Some (split_blocks (map zlen blocks) G) /\
+              concat (split_blocks (map zlen blocks) G) = G /\
+              map zlen (split_blocks (map zlen blocks) G) = map zlen blocks.
+Proof. exact gradient_plan_correct. Qed.
+
+(* unit spacing, integer inputs: TWICE the gradient, exactly *)
+Theorem C19_gradient_unit_spacing :
+  forall eo (blocks : list (list Z)),
+    1 <= eo <= 2 -> blocks <> [] -> gradient_guard eo (map zlen blocks) = true ->
+    exists G, np_gradient2 eo (concat blocks) = Some G /\
+              da_gradient2 eo blocks = Some (split_blocks (map zlen blocks) G) /\
+              concat (split_blocks (map zlen blocks) G) = G /\
+              map zlen (split_blocks (map zlen blocks) G) = map zlen blocks.
+Proof. exact da_gradient2_correct. Qed.
+
+(* scalar spacing h: exact rationals (list equality, not just Qeq) *)
+Theorem C19_gradient_scalar_spacing :
+  forall eo (h : Q) (blocks : list (list Z)),
+    1 <= eo <= 2 -> blocks <> [] -> gradient_guard eo (map zlen blocks) = true ->
+    exists G, np_gradient eo h (concat blocks) = Some G /\
+              da_gradient eo h blocks = Some (split_blocks (map zlen blocks) G) /\
+              concat (split_blocks (map zlen blocks) G) = G /\
+              map zlen (split_blocks (map zlen blocks) G) = map zlen blocks.
+Proof. exact da_gradient_correct. Qed.
+
+Theorem C19_gradient_scalar_is_twice_over_2h :
+  forall eo (h : Q) (l : list Z), np_gradient eo h l = option_map (map (over2h h)) (np_gradient2 eo l).
+Proof. exact np_gradient_over2h. Qed.
+
+(* coordinates gradient(f, x): samples (f[i], x[i]), NumPy's non-uniform second-order formulas *)
+Theorem C19_gradient_coordinates :
+  forall eo (blocks : list (list (Z * Z))),
+    1 <= eo <= 2 -> blocks <> [] -> gradient_guard eo (map zlen blocks) = true ->
+    exists G, np_gradient_x eo (concat blocks) = Some G /\
+              da_gradient_x eo blocks = Some (split_blocks (map zlen blocks) G) /\
+              concat (split_blocks (map zlen blocks) G) = G /\
+              map zlen (split_blocks (map zlen blocks) G) = map zlen blocks.
+Proof. exact da_gradient_x_correct. Qed.
+
+(* the position-wise definition used above is numpy.gradient as NumPy writes it, with slices:
+   out[0] one-sided, out[1:-1] = (f[2:] - f[:-2]) / 2h, out[-1] one-sided (twice the unit-spacing value) *)
+Theorem C19_np_gradient_slices :
+  forall eo (l : list Z),
+    2 <= zlen l -> eo + 1 <= zlen l ->
+    np_gradient2 eo l =
+    Some ([lft2 eo (firstn (Z.to_nat (eo + 1)) l)]
+          ++ map2 Z.sub (pyslice l 2 (zlen l)) (pyslice l 0 (zlen l - 2))
+          ++ [rgt2 eo (lastn (eo + 1) l)]).
+Proof. exact np_gradient2_slices. Qed.
+
+(* (c) chunks below the guard.  gradient() raises; but the guard is NOT what makes (a) true: the
+   map_overlap pipeline behind it (overlap()'s rechunk merges one-element edge blocks into their
+   neighbours) computes numpy.gradient for EVERY layout -- blocks of size 1, even 0 -- whenever
+   numpy.gradient itself is defined, and fails exactly when numpy.gradient fails. *)
+Theorem C19_gradient_guard_rejects :
+  forall (T R : Type) (d : T) (mid : T -> T -> T -> R) (lft rgt : list T -> R) (eo : Z) (blocks : list (list T)),
+    gradient_guard eo (map zlen blocks) = false -> gradient_plan d mid lft rgt eo blocks = None.
+Proof. exact gradient_plan_guard_none. Qed.
+
+Theorem C19_gradient_without_guard :
+  forall (T R : Type) (d : T) (mid : T -> T -> T -> R) (lft rgt : list T -> R) (eo : Z) (blocks : list (list T)) G,
+    0 <= eo <= 2 -> blocks <> [] ->
+    np_gradient_gen d mid lft rgt eo (concat blocks) = Some G ->
+    exists cs, overlap_rechunked_chunks (map zlen blocks) 1 1 true = Some cs /\
+               gradient_core d mid lft rgt eo blocks = Some (split_blocks cs G) /\
+               concat (split_blocks cs G) = G /\ map zlen (split_blocks cs G) = cs.
+Proof. exact gradient_core_correct. Qed.
+
+Theorem C19_gradient_without_guard_fails_like_numpy :
+  forall (T R : Type) (d : T) (mid : T -> T -> T -> R) (lft rgt : list T -> R) (eo : Z) (blocks : list (list T)),
+    0 <= eo -> np_gradient_gen d mid lft rgt eo (concat blocks) = None -> gradient_core d mid lft rgt eo blocks = None.
+Proof. exact gradient_core_none. Qed.
+
+(* chunks that pass the guard (>= edge_order + 1 >= 2) are not touched by overlap()'s rechunk, so the
+   chunks array_locs was computed from are the chunks of the blocks the kernel sees *)
+Theorem C19_gradient_guard_no_rechunk :
+  forall cs, cs <> [] -> Forall (fun c => 2 <= c) cs -> overlap_rechunked_chunks cs 1 1 true = Some cs.
+Proof. exact rechunk_id_ge2. Qed.
+
+(* (d) array_locs, every layout: (start_j, stop_j) = [a_j - front_j, a_j + c_j + back_j) with
+   front_0 = 0, back_last = 0 and 1 otherwise: the block plus its one-element halo ... *)
+Theorem C19_array_locs :
+  forall cs, cs <> [] ->
+    combine (fst (array_locs cs)) (snd (array_locs cs)) = trim_bounds cs 0 0 (zlen cs) 1 1 true.
+Proof. exact array_locs_bounds. Qed.
+
+(* ... so that the coordinate windows coord[start_j : stop_j] are exactly the overlapped blocks of
+   the coordinate array chunked like f (under the guard) *)
+Theorem C19_array_locs_windows :
+  forall (A : Type) (cblocks : list (list A)),
+    cblocks <> [] -> Forall (fun c => 2 <= c) (map zlen cblocks) ->
+    overlap cblocks 1 1 BNone = Some (coord_windows (concat cblocks) (map zlen cblocks)).
+Proof. intros A. exact (@coord_windows_overlap A). Qed.
+
 (* ---- the hypotheses are satisfiable on non-trivial inputs --------------------------------- *)
 Example C19_ex_scan_zero_blocks :
   cum_blelloch Z.add 0 [[1;2];[];[3];[4;5;6];[];[7]] = Some [[1;3];[];[6];[10;15;21];[];[28]].
@@ -173,6 +305,34 @@ Example C19_ex_map_overlap_each_kind :
   map_overlap (roll_stencil 1) [[1;2;3];[4;5];[6;7;8;9]] 1 1 BNone = Some [[16;10;16];[22;28];[34;40;46;47]].
 Proof. vm_compute. repeat split. Qed.
 
+Example C19_ex_diff :
+  da_diff 2 (Some [7]) None [9;1;16;1;25;81;4] = Some [-10;23;-30;39;32;-133] /\
+  da_diff 9 None None [1;2;3] = Some [] /\ da_diff (-1) None None [1;2;3] = None /\
+  da_diff 0 (Some [7]) (Some [8]) [1;2;3] = Some [1;2;3] /\
+  map (sbinom 3) [0;1;2;3;4]%nat = [-1;3;-3;1;0].
+Proof. vm_compute. repeat split. Qed.
+
+Example C19_ex_gradient_guarded :
+  gradient_guard 2 [3;4;5] = true /\
+  np_gradient2 2 [9;1;16;1;25;81;4;36;25;9;25;64] = Some [-39;7;0;9;80;-21;-45;21;-27;0;55;101] /\
+  da_gradient2 2 (split_blocks [3;4;5] [9;1;16;1;25;81;4;36;25;9;25;64]) = Some [[-39;7;0];[9;80;-21;-45];[21;-27;0;55;101]] /\
+  gradient_ext (split_blocks [3;4;5] [9;1;16;1;25;81;4;36;25;9;25;64]) = Some [[9;1;16;1];[16;1;25;81;4;36];[4;36;25;9;25;64]] /\
+  array_locs [3;4;5] = ([0;2;6], [4;8;12]).
+Proof. vm_compute. repeat split. Qed.
+
+(* the guard rejects layouts on which the pipeline behind it is right *)
+Example C19_ex_gradient_guard_is_stricter_than_needed :
+  da_gradient2 1 [[9];[1;16;1]] = None /\
+  da_gradient2_core 1 [[9];[1;16;1]] = Some [[-16;7;0;-30]] /\ np_gradient2 1 [9;1;16;1] = Some [-16;7;0;-30] /\
+  da_gradient2_core 2 (split_blocks [1;1;3;1;5;1] [9;1;16;1;25;81;4;36;25;9;25;64]) = Some [[-39;7];[0;9;80];[-21];[-45;21;-27;0;55;101]].
+Proof. vm_compute. repeat split. Qed.
+
+Example C19_ex_gradient_rationals :
+  da_gradient 2 (1#2) [[9;1;16];[1;25;81;4]] = Some [[-78#2; 14#2; 0#2]; [18#2; 160#2; -42#2; -574#2]]%Q /\
+  np_gradient_x 1 (combine [9;1;16;1;25] [0;1;3;6;10]) = Some [-8#1; -102#36; 2250#900; -2016#7056; 24#4]%Q /\
+  da_gradient_x 2 (split_blocks [3;3] (combine [9;1;16;1;25;4] [0;1;3;6;10;15])) = Some [[-474#36; -102#36; 2250#900]; [-2016#7056; 47520#32400; -319680#32400]]%Q.
+Proof. vm_compute. repeat split. Qed.
+
 Print Assumptions C19_cumsum_sequential.
 Print Assumptions C19_cumsum_blelloch.
 Print Assumptions C19_blelloch_wiring.
@@ -184,3 +344,19 @@ Print Assumptions C19_overlap_blocks.
 Print Assumptions C19_overlap_trim_id.
 Print Assumptions C19_map_overlap_stencil.
 Print Assumptions C19_map_overlap_stencil_none.
+Print Assumptions C19_diff_step.
+Print Assumptions C19_diff.
+Print Assumptions C19_diff_closed_form.
+Print Assumptions C19_sbinom_is_signed_binomial.
+Print Assumptions C19_gradient_plan.
+Print Assumptions C19_gradient_unit_spacing.
+Print Assumptions C19_gradient_scalar_spacing.
+Print Assumptions C19_gradient_scalar_is_twice_over_2h.
+Print Assumptions C19_gradient_coordinates.
+Print Assumptions C19_gradient_guard_rejects.
+Print Assumptions C19_gradient_without_guard.
+Print Assumptions C19_gradient_without_guard_fails_like_numpy.
+Print Assumptions C19_gradient_guard_no_rechunk.
+Print Assumptions C19_array_locs.
+Print Assumptions C19_array_locs_windows.
+Print Assumptions C19_np_gradient_slices.
